@@ -114,6 +114,29 @@ def run(F, R, tier):
     R.floor("C20-d decoding sites in parse_module_source_and_info", len(pc), 2)
     hdr = [n for n in pm["_nodes"] if callee_matches(n, ["source::resolve_media_type_and_charset_from_headers"])]
     R.ob("C20-d", "media type and charset are taken from the response headers", len(hdr) == 1, "parse_module_source_and_info no longer calls resolve_media_type_and_charset_from_headers", pm["file"])
+    # the header helper hands the charset of the content-type header through unchanged
+    rh = F.body("source::resolve_media_type_and_charset_from_headers")
+    inner = [n for n in rh["_nodes"] if n.get("k") == "Call" and (n.get("fn") or "").endswith("resolve_media_type_and_charset_from_content_type")]
+    if R.ob("C20-d", "the header helper delegates to deno_media_type", len(inner) == 1, "resolve_media_type_and_charset_from_headers no longer calls resolve_media_type_and_charset_from_content_type", rh["file"]):
+        vals = []
+        _tail_values(F, rh["body"]["value"], vals)
+        for r_ in walk(rh["body"]["value"]):
+            if r_.get("k") == "Ret" and "e" in r_:
+                _tail_values(F, r_["e"], vals)
+        for v in vals:
+            ok = any(peel(y) is inner[0] for y in through_locals(v))
+            pv = peel(v)
+            if not ok and pv.get("k") == "Tup":
+                els = pv.get("elems") or pv.get("args") or []
+                if len(els) == 2:
+                    cs = peel_value(els[1])
+                    if cs.get("res") == "local":
+                        for d in local_defs(rh, cs["lid"]):
+                            # bound at tuple position 1 of `let (mt, cs) = <delegate call>`
+                            if d[0] in ("letpat", "pat", "let") and any(x is inner[0] for dd in d[1:] if isinstance(dd, dict) for x in walk(dd)):
+                                ok = True
+            R.ob("C20-d", "the charset of the content-type header is handed on for every media type", ok,
+                 "resolve_media_type_and_charset_from_headers returns `%s`: the header charset is dropped or replaced on this path, so text in that charset is decoded as something else" % expr_text(v)[:60], where(v))
     for c in pc:
         a = peel_value(c["args"][2])
         ok = False
